@@ -34,16 +34,18 @@ type Opts struct {
 	NoAutoRead         bool   `json:"disable_auto_read,omitempty"`
 	TimeoutMs          int    `json:"timeout_ms,omitempty"`
 	H2MaxHeaderList    int    `json:"h2_max_header_list_size,omitempty"`
+	Expect100          bool   `json:"expect_100_continue,omitempty"` // the request carries Expect: 100-continue (POST with a body)
 }
 
 type Round struct {
-	Data []byte `json:"-"`
-	Lazy string `json:"generated_by,omitempty"` // big streams are materialised only while the case runs
-	Hex  string `json:"data,omitempty"`         // filled for descriptions (capped)
-	Len  int    `json:"len"`
-	Segs []int  `json:"segs,omitempty"`
-	End  string `json:"end"`
-	Hold int    `json:"hold_ms,omitempty"`
+	Data  []byte `json:"-"`
+	Lazy  string `json:"generated_by,omitempty"` // big streams are materialised only while the case runs
+	Hex   string `json:"data,omitempty"`         // filled for descriptions (capped)
+	Len   int    `json:"len"`
+	Segs  []int  `json:"segs,omitempty"`
+	End   string `json:"end"`
+	Hold  int    `json:"hold_ms,omitempty"`
+	Pause int    `json:"pause_after_first_segment_ms,omitempty"` // the rest of the stream arrives later, on its own
 }
 
 // Structured: what the generator knows about a well-formed response (needed to state the
@@ -451,6 +453,10 @@ func genCases(seed uint64, quick bool) []*Case {
 			if rep%2 == 1 {
 				c.Opts, _ = randOpts(r)
 			}
+			if c.Method == "POST" && r.Chance(50) {
+				c.Opts.Expect100 = true
+				c.Shape += "+expect"
+			}
 			c.Rounds = []Round{{Data: []byte(sb.String()), Segs: randSegs(r), End: "fin"}}
 			add(c)
 		}
@@ -568,6 +574,59 @@ func genCases(seed uint64, quick bool) []*Case {
 		c.Rounds = append(c.Rounds, Round{Data: data, End: "fin", Segs: randSegs(r)})
 		add(c)
 	}
+	// N. the number of distinct field names x where the TCP segment boundary falls (the reader sizes
+	// its value slots from the header lines already buffered when it starts)
+	for _, n := range []int{3, 40, 300, 1001, scale(1200, 3000)} {
+		for _, first := range []int{0, 2, 7} {
+			if quick && n > 300 && first == 7 {
+				continue
+			}
+			var sb strings.Builder
+			sb.WriteString("HTTP/1.1 200 OK\r\nContent-Length: 2\r\n")
+			cut := 0
+			for i := 0; i < n; i++ {
+				if i == first {
+					cut = sb.Len()
+				}
+				fmt.Fprintf(&sb, "X-N%d: v%d\r\n", i, i)
+				if i%97 == 5 {
+					fmt.Fprintf(&sb, "X-N%d: again\r\n", i/2) // a repeated name among the new ones
+				}
+			}
+			sb.WriteString("\r\nhi")
+			c := &Case{Kind: "h1", Method: "GET", Shape: fmt.Sprintf("distinct-names-%d-cut%d", n, first), Opts: plainOpts, Model: n <= 300, Expect: "response-clean"}
+			rd := Round{Data: []byte(sb.String()), End: "fin"}
+			if first > 0 {
+				rd.Segs = []int{cut, 1 << 30}
+				rd.Pause = 30
+			}
+			c.Rounds = []Round{rd}
+			add(c)
+		}
+	}
+	// O. digest: every algorithm token of the table in every spelling, through the whole middleware
+	for _, alg := range algVariants(r) {
+		for _, quoted := range []bool{false, true} {
+			if quick && quoted && r.Chance(60) {
+				continue
+			}
+			a := alg
+			if quoted {
+				a = "\"" + alg + "\""
+			}
+			chal := "Digest realm=\"r\", nonce=\"n\", qop=\"auth\", algorithm=" + a
+			o := Opts{Digest: true, DisableAutoDecode: true}
+			if r.Chance(30) {
+				o.NoAutoRead = true
+			}
+			c := &Case{Kind: "h1", Method: hk.Pick(r, []string{"GET", "POST"}), Shape: "digest-alg:" + alg, Opts: o}
+			c.Rounds = []Round{
+				{Data: []byte("HTTP/1.1 401 Unauthorized\r\nWWW-Authenticate: " + chal + "\r\nContent-Length: 2\r\n\r\nno"), End: "fin"},
+				{Data: []byte(final200("ok")), End: "fin"},
+			}
+			add(c)
+		}
+	}
 	// L. a response that cannot carry a body, declared chunked, on a connection the server keeps open:
 	// the call must return at once (nothing to wait for)
 	for _, h := range []struct{ meth, status string }{{"GET", "304 Not Modified"}, {"GET", "204 No Content"}, {"HEAD", "200 OK"}, {"GET", "304 Not Modified"}} {
@@ -633,4 +692,28 @@ func floodData(name string) []byte {
 		}
 	}
 	return nil
+}
+
+// algVariants: the algorithm tokens of RFC 7616 (and some that are not in the table) in every spelling
+func algVariants(r *hk.Rand) []string {
+	base := []string{"MD5", "MD5-sess", "SHA-256", "SHA-256-sess", "SHA-512-256", "SHA-512-256-sess", "SHA-512", "SHA-1", "SHA-512-sess", ""}
+	seen := map[string]bool{}
+	var out []string
+	add := func(s string) {
+		if !seen[s] {
+			seen[s] = true
+			out = append(out, s)
+		}
+	}
+	for _, b := range base {
+		add(b)
+		add(strings.ToLower(b))
+		add(strings.ToUpper(b))
+		if len(b) > 1 {
+			add(strings.ToUpper(b[:1]) + strings.ToLower(b[1:]))
+			add(flipCase(r, b))
+			add(" " + b)
+		}
+	}
+	return out
 }
